@@ -46,6 +46,8 @@ class Sched(object):
     self.p_lock = None        # pre-emption probability at lock release
     self.file_p = {}          # file-id -> pre-emption probability override
     self.hot = {}             # (file-id, line) -> pre-emption probability override
+    self.p_unlocked = {}      # file-id -> probability at lines run while holding no SimLock
+    self.locks = []           # SimLocks created through the threading shim
     self.opcode_fids = set()  # file-ids traced at bytecode granularity
     self.p_opcode = None
     self.tsteps = {}          # thread -> line steps executed
@@ -146,6 +148,14 @@ class Sched(object):
       p = self.hot.get((fid, frame.f_lineno)) if self.hot else None
       if p is None:
         p = self.file_p.get(fid)
+      if self.p_unlocked and fid in self.p_unlocked:
+        # race-directed bias: shared-state code running outside every lock is where a
+        # check-then-act window can be; the other thread then runs on undisturbed
+        for l in self.locks:
+          if l.owner == me:
+            break
+        else:
+          p = self.p_unlocked[fid]
       if self.ctx.ch.preempt(self.cur, fid, frame.f_lineno, p):
         self._preempt(fid, frame.f_lineno)
     return self._ltrace
@@ -309,6 +319,7 @@ class ThreadingShim(object):
   def Lock(self):
     l = SimLock(self._s, 'L%d' % len(self.locks))
     self.locks.append(l)
+    self._s.locks.append(l)
     return l
 
   RLock = Lock
